@@ -36,8 +36,8 @@ class ModelRun:
 class ApalacheRun(ModelRun):
     """An inductive-style check discharged by Apalache (SMT) for unbounded integers: Init => Inv at length 0."""
 
-    def __init__(self, module, inv, label, timeout=300):
-        ModelRun.__init__(self, module, "(apalache --length=0 --inv=%s)" % inv, label, timeout=timeout)
+    def __init__(self, module, inv, label, timeout=300, expect="ok"):
+        ModelRun.__init__(self, module, "(apalache --length=0 --inv=%s)" % inv, label, timeout=timeout, expect=expect)
         self.inv = inv
 
     def run(self, seed):
@@ -56,7 +56,7 @@ class ApalacheRun(ModelRun):
         ok = rc == 0 and "EXITCODE: OK" in out
         self.result = {"rc": 0 if ok else (rc or 1), "out": out if not ok else "Model checking completed. No error has been found.\n1 states generated, 1 distinct states found, 0 states left on queue.",
                        "wall_s": time.time() - t0, "timed_out": timed_out, "states": 1, "distinct": 1, "queue": 0, "depth": 0, "ok": ok,
-                       "violated": None if ok else self.inv, "postcondition_false": False}
+                       "violated": self.inv if (not ok and "Checker has found an error" in out) else None, "postcondition_false": False}
         return self
 
 
